@@ -16,12 +16,14 @@ TRUSTED = ["hand models lean/AwsVerif/Model/Lht.lean (ordered association list) 
 ASSUMPTIONS = ["max_items >= 1 (AWS_ASSERT(max_items) in aws_cache_new_*)",
                "hash_fn / equals_fn are consistent and depend on the key's identity only",
                "aws_lru_cache_use_lru_element / get_mru_element are called on LRU caches only"]
-RULE = ("op histories over one table/cache: kind lht|fifo|lifo|lru, capacity 1..5, 2..8 key identities x 2 pointers, "
+RULE = ("op histories over one table/cache: kind lht|fifo|lifo|lru, capacity 1..5, 2..8 key identities x 2 pointers "
+        "(+ the NULL key in a quarter of the cases, NULL values in a quarter), "
         "with/without key and value destructors, 4 hash modes (spread, constant, two buckets, zero); non-trivial = at least "
         "3 puts and (an overwrite, a removal or an eviction); plus all histories of a fixed length over 3 identities")
 NOT_PROVED = []
 
 KINDS = ("lht", "fifo", "lifo", "lru")
+NULL_KEY = 1000     # identity standing for the NULL key pointer (its pointer number is always 0); value 0 = NULL value
 
 
 # ---------------------------------------------------------------- reference (independent of the Lean model)
@@ -84,7 +86,7 @@ class Ref:
         elif op in ("find", "findmv"):
             i = int(t[1])
             if i in self.m:
-                r["result"] = f"{op} {self.m[i][1]}"
+                r["result"] = f"{op} {self.m[i][1] or 'NULL'}"      # a stored NULL value reads back as NULL
                 if op == "findmv" or self.kind == "lru":
                     self.m[i][3] = self.tick()
             else:
@@ -110,14 +112,14 @@ class Ref:
         elif op == "uselru":
             if self.m:
                 i = min(self.m, key=lambda j: self.m[j][3])
-                r["result"] = f"uselru {self.m[i][1]}"
+                r["result"] = f"uselru {self.m[i][1] or 'NULL'}"
                 self.m[i][3] = self.tick()
             else:
                 r["result"] = "uselru NULL"
         elif op == "getmru":
             if self.m:
                 i = max(self.m, key=lambda j: self.m[j][3])
-                r["result"] = f"getmru {self.m[i][1]}"
+                r["result"] = f"getmru {self.m[i][1] or 'NULL'}"
             else:
                 r["result"] = "getmru NULL"
         else:
@@ -225,19 +227,35 @@ def gen_case(rng, maxops):
     ops = [f"init {kind} {cap} {kd} {vd} {hm}"]
     ref = Ref(kind, cap, bool(kd), bool(vd))
     val = [10]
-    tags = {"kind": kind, "cap": cap, "overwrite_victim": 0, "remove_refill": 0, "evictions": 0, "overwrites": 0, "same_ptr": 0}
+    tags = {"kind": kind, "cap": cap, "overwrite_victim": 0, "remove_refill": 0, "evictions": 0, "overwrites": 0, "same_ptr": 0,
+            "null_key_puts": 0, "null_val_puts": 0}
+    idents = list(range(nid)) + ([NULL_KEY] if rng.random() < 0.25 else [])
+    null_vals = rng.random() < 0.25
+
+    def pick(extra=0):
+        """an identity of the universe (or, for lookups, sometimes one that is never stored)"""
+        if extra and rng.random() < 0.1:
+            return nid
+        return rng.choice(idents)
 
     def put(i, p=None):
         if p is None:
             p = rng.randint(0, 1)
             if i in ref.m and rng.random() < 0.35:
                 p = ref.m[i][0]          # the very pointer already stored
+        if i == NULL_KEY:
+            p = 0
+            tags["null_key_puts"] += 1
         if i in ref.m:
             tags["overwrites"] += 1
             if ref.m[i][0] == p:
                 tags["same_ptr"] += 1
         val[0] += 1
-        line = f"put {i} {p} {val[0]}"
+        v = val[0]
+        if null_vals and rng.random() < 0.3:
+            v = 0
+            tags["null_val_puts"] += 1
+        line = f"put {i} {p} {v}"
         r = ref.apply(line.split())
         if r["victim"] is not None:
             tags["evictions"] += 1
@@ -256,7 +274,7 @@ def gen_case(rng, maxops):
             vic = ref.victim()
             put(vic)
             tags["overwrite_victim"] += 1
-            fresh = [i for i in range(nid) if i not in ref.m]
+            fresh = [i for i in idents if i not in ref.m]
             if fresh:
                 put(rng.choice(fresh))
         elif ref.m and x < 0.28:
@@ -265,21 +283,21 @@ def gen_case(rng, maxops):
             other(f"remove {i}")
             tags["remove_refill"] += 1
             for _ in range(rng.randint(1, 2)):
-                put(rng.randrange(nid))
+                put(pick())
         elif x < 0.62:
-            put(rng.randrange(nid))
+            put(pick())
         elif x < 0.78:
-            other(f"find {rng.randrange(nid + 1)}")
+            other(f"find {pick(1)}")
         elif x < 0.86:
-            other(f"remove {rng.randrange(nid + 1)}")
+            other(f"remove {pick(1)}")
         elif x < 0.89:
             other("clear")
         elif kind == "lru":
             other(rng.choice(["uselru", "uselru", "getmru"]))
         elif kind == "lht":
-            other(rng.choice([f"findmv {rng.randrange(nid + 1)}", f"mvend {rng.randrange(nid + 1)}"]))
+            other(rng.choice([f"findmv {pick(1)}", f"mvend {pick(1)}"]))
         else:
-            put(rng.randrange(nid))
+            put(pick())
     return Case(ops, tags)
 
 
@@ -291,11 +309,12 @@ def malformed_cases():
             Case(["init lht 2 1 1 0", "uselru", "getmru", "find", "put 1 0 11"], {"malformed": True})]
 
 
-def exhaustive_cases(kind, cap, depth, kd=1, vd=1, hm=0):
+def exhaustive_cases(kind, cap, depth, kd=1, vd=1, hm=0, nulls=False):
     """every history of `depth` calls over 3 identities, up to renaming of identities (an identity may be mentioned only
     if all smaller ones have been mentioned: first-occurrence order 0,1,2): put (the pointer alternates with the position
     so same-pointer and different-pointer overwrites both occur), find, remove, clear (+ uselru, getmru for lru;
-    + findmv, mvend for the bare table)"""
+    + findmv, mvend for the bare table).  With `nulls` the first identity mentioned is the NULL key and every third call
+    position stores the NULL value."""
     nid = 3
     out = []
     init = f"init {kind} {cap} {kd} {vd} {hm}"
@@ -304,15 +323,17 @@ def exhaustive_cases(kind, cap, depth, kd=1, vd=1, hm=0):
 
     def rec(ops, used, d):
         if d == 0:
-            out.append(Case([init] + ops, {"kind": kind, "cap": cap, "exhaustive": depth}))
+            out.append(Case([init] + ops, {"kind": kind, "cap": cap, "exhaustive": depth, "nulls": nulls}))
             return
         pos = len(ops)
         for name in unary:
             for i in range(min(used + 1, nid)):
+                ident = NULL_KEY if (nulls and i == 0) else i
                 if name == "put":
-                    line = f"put {i} {(pos // 2) % 2} {10 + pos}"
+                    ptr = 0 if ident == NULL_KEY else (pos // 2) % 2
+                    line = f"put {ident} {ptr} {0 if (nulls and pos % 3 == 1) else 10 + pos}"
                 else:
-                    line = f"{name} {i}"
+                    line = f"{name} {ident}"
                 rec(ops + [line], max(used, i + 1), d - 1)
         for name in nullary:
             rec(ops + [name], used, d - 1)
@@ -327,13 +348,20 @@ def gen_cases(rng, tier):
         for kind in ("fifo", "lifo", "lru"):
             cases += exhaustive_cases(kind, 2, 4 if kind == "lru" else 5, hm=rng.choice([0, 1]))
             cases += exhaustive_cases(kind, 1, 4)
+            cases += exhaustive_cases(kind, 2, 4, nulls=True)
+            cases += exhaustive_cases(kind, 1, 3, nulls=True, kd=rng.choice([0, 1]))
         cases += exhaustive_cases("lht", 2, 4)
+        cases += exhaustive_cases("lht", 2, 3, nulls=True)
     else:
         for kind in ("fifo", "lifo", "lru"):
             cases += exhaustive_cases(kind, 2, 6, hm=rng.choice([0, 1]))
             cases += exhaustive_cases(kind, 1, 5)
             cases += exhaustive_cases(kind, 3, 5, kd=rng.choice([0, 1]))
+            cases += exhaustive_cases(kind, 2, 5, nulls=True)
+            cases += exhaustive_cases(kind, 1, 4, nulls=True)
+            cases += exhaustive_cases(kind, 3, 4, nulls=True, vd=rng.choice([0, 1]))
         cases += exhaustive_cases("lht", 2, 5)
+        cases += exhaustive_cases("lht", 2, 4, nulls=True)
     return cases
 
 
@@ -349,7 +377,8 @@ def nontrivial(case):
 
 def distribution(cases, c_out):
     d = {"kinds": {}, "caps": {}, "ops": {}, "evictions": 0, "overwrites": 0, "overwrite_same_pointer": 0,
-         "overwrite_victim_then_insert": 0, "remove_then_refill": 0, "exhaustive_cases": 0, "dtor_events_seen": 0}
+         "overwrite_victim_then_insert": 0, "remove_then_refill": 0, "exhaustive_cases": 0, "dtor_events_seen": 0,
+         "null_key_puts": 0, "null_value_puts": 0}
     for i, c in enumerate(cases):
         t = c.tags
         if "kind" in t:
@@ -363,8 +392,12 @@ def distribution(cases, c_out):
         d["overwrite_victim_then_insert"] += t.get("overwrite_victim", 0)
         d["remove_then_refill"] += t.get("remove_refill", 0)
         for o in c.ops:
-            k = o.split()[0]
+            tk = o.split()
+            k = tk[0]
             d["ops"][k] = d["ops"].get(k, 0) + 1
+            if k == "put" and len(tk) == 4:
+                d["null_key_puts"] += tk[1] == str(NULL_KEY)
+                d["null_value_puts"] += tk[3] == "0"
         for l in c_out.get(i, []):
             if l.startswith("P dtor ") and l != "P dtor -":
                 d["dtor_events_seen"] += len(l.split()) - 2
